@@ -365,3 +365,90 @@ def carried_family():
   func.return %r#0, %r#1, %r#2 : i16, i16, i16
 }}
 """, [16, 16, 16], [16, 16, 16])
+
+
+def recursion_family():
+    """Multi-block functions re-entered recursively through func.call; values of the outer activation are used after the call
+    returns (factorial, Fibonacci, a sum that keeps two values live across two calls), also in scf form."""
+    fact_cf = """func.func @main(%n : i16) -> i16 {
+  %r = func.call @fact(%n) : (i16) -> i16
+  func.return %r : i16
+}
+func.func @fact(%n : i16) -> i16 {
+  %one = arith.constant 1 : i16
+  %c = arith.cmpi sle, %n, %one : i16
+  cf.cond_br %c, ^base, ^rec
+^base:
+  func.return %one : i16
+^rec:
+  %m = arith.subi %n, %one : i16
+  %f = func.call @fact(%m) : (i16) -> i16
+  %p = arith.muli %n, %f : i16
+  func.return %p : i16
+}
+"""
+    fib_cf = """func.func @main(%n : i16) -> i16 {
+  %r = func.call @fib(%n) : (i16) -> i16
+  func.return %r : i16
+}
+func.func @fib(%n : i16) -> i16 {
+  %one = arith.constant 1 : i16
+  %two = arith.constant 2 : i16
+  %c = arith.cmpi slt, %n, %two : i16
+  cf.cond_br %c, ^base(%n : i16), ^rec
+^base(%v : i16):
+  func.return %v : i16
+^rec:
+  %a = arith.subi %n, %one : i16
+  %fa = func.call @fib(%a) : (i16) -> i16
+  %b = arith.subi %n, %two : i16
+  %fb = func.call @fib(%b) : (i16) -> i16
+  %s = arith.addi %fa, %fb : i16
+  %t = arith.addi %s, %n : i16
+  %u = arith.subi %t, %n : i16
+  func.return %u : i16
+}
+"""
+    fact_scf = """func.func @main(%n : i16) -> i16 {
+  %r = func.call @fact(%n) : (i16) -> i16
+  func.return %r : i16
+}
+func.func @fact(%n : i16) -> i16 {
+  %one = arith.constant 1 : i16
+  %c = arith.cmpi sle, %n, %one : i16
+  %r = scf.if %c -> (i16) {
+    scf.yield %one : i16
+  } else {
+    %m = arith.subi %n, %one : i16
+    %f = func.call @fact(%m) : (i16) -> i16
+    %p = arith.muli %n, %f : i16
+    scf.yield %p : i16
+  }
+  func.return %r : i16
+}
+"""
+    loop_call = """func.func @main(%n : i16) -> i16 {
+  %lb = arith.constant 0 : index
+  %ub = arith.constant 3 : index
+  %st = arith.constant 1 : index
+  %r = scf.for %i = %lb to %ub step %st iter_args(%acc = %n) -> (i16) {
+    %v = func.call @step(%acc) : (i16) -> i16
+    %w = arith.addi %v, %acc : i16
+    scf.yield %w : i16
+  }
+  func.return %r : i16
+}
+func.func @step(%x : i16) -> i16 {
+  %three = arith.constant 3 : i16
+  %c = arith.cmpi sgt, %x, %three : i16
+  cf.cond_br %c, ^big, ^small
+^big:
+  %h = arith.subi %x, %three : i16
+  func.return %h : i16
+^small:
+  %d = arith.addi %x, %x : i16
+  func.return %d : i16
+}
+"""
+    for text in (fact_cf, fib_cf, fact_scf, loop_call):
+        yield text, [16], [16]
